@@ -82,6 +82,19 @@ var c16Shared = map[string]string{
 	"mix.p":   "xml(doc, \"/a/b\", xb)\nsql_cover(q)\ndefault_time(ts, \"Asia/Tokyo\")\nj = load_json(js)\nadd_key(jl, len(j[\"a\"]))\nl = [1, 2, 3, 4, 5]\nadd_key(sl, l[::-2])\ns = \"\"\nfor e in j[\"a\"] {\n  if e == 2 { continue }\n  s = s + \"x\"\n}\nadd_key(s)\nuppercase(verb)\ntrim(pad)\nurl_decode(u)\ncast(n, \"float\")\nset_tag(host)\nrename(renamed, msg2)\nstrfmt(f, \"%v-%s\", 1, verb)\n",
 }
 
+var c16BigBad = []string{"w05.p", "w11.p", "w17.p", "w23.p"}
+var c16BigSet = func() map[string]string {
+	m := map[string]string{}
+	for i := 0; i < 40; i++ {
+		m[fmt.Sprintf("w%02d.p", i)] = fmt.Sprintf("# member %d\nadd_key(k%d, %d)\nif k%d == %d {\n  x = [1, 2][%d:]\n}\n", i, i, i, i, i, i%3)
+	}
+	m["w05.p"] = "a b\n"
+	m["w11.p"] = "if true {\n  nosuch_fn(1)\n}\n"
+	m["w17.p"] = "x = 1 / 0\ny = \"open\n"
+	m["w23.p"] = "len()\n"
+	return m
+}()
+
 func c16Point(r *rand.Rand) (*input.Point, string) {
 	msgs := []string{"abc 12 3.5", "hello 7 1e3", "x 0 0", "no match here!", ""}
 	fields := map[string]any{
@@ -290,6 +303,22 @@ func (k c16) Run(c *mon.Ctx, workload string, i int64) {
 						cl, ck := call, check
 						if r.Intn(2) == 0 {
 							cl, ck = drive.V1Funcs()
+						}
+						if r.Intn(3) == 0 {
+							// a LARGE workspace (40 scripts) with two unparsable and two
+							// check-failing members: exactly those four are rejected
+							okB, errB := engine.ParseScript(c16BigSet, cl, ck)
+							atomic.AddInt32(&inflight[1], -1)
+							if len(errB) != len(c16BigBad) || len(okB) != len(c16BigSet)-len(c16BigBad) {
+								report(bad{"concurrent-load-differs", fmt.Sprintf("loading the 40-script set concurrently: %d accepted, %d rejected (%v); %d of them are faulty", len(okB), len(errB), errB, len(c16BigBad))})
+							}
+							for _, n := range c16BigBad {
+								if errB[n] == nil {
+									report(bad{"concurrent-load-differs", fmt.Sprintf("the faulty member %s of the 40-script set was not rejected", n)})
+								}
+							}
+							atomic.AddInt32(&total, 1)
+							continue
 						}
 						okS, errS := engine.ParseScript(c16Shared, cl, ck)
 						atomic.AddInt32(&inflight[1], -1)
